@@ -159,3 +159,12 @@ def call(f, *a, **k):
         return ("ok", f(*a, **k))
     except Exception as e:  # pylint: disable=broad-except
         return ("raise", type(e).__name__)
+
+
+def hash_env(salt=0, **extra):
+    """Environment for a second interpreter whose string hashes are seeded differently from this process (bin/check runs
+    with PYTHONHASHSEED=0): iteration orders of sets and dictionaries keyed by strings differ there, answers must not."""
+    seed = int(os.environ.get("VERIF_SEED", "20261003") or 20261003)
+    env = dict(os.environ, PYTHONHASHSEED=str(1 + (seed * 7919 + salt * 104729) % 4294967290))
+    env.update(extra)
+    return env
